@@ -44,7 +44,13 @@ def step (s : St) (ws : List String) : St × String :=
     | some (n', b) =>
       -- the hypothesis of `C09_history_chain_linked` (`FreshHash`: the new block's hash is not the hash of a stored block), evaluated
       let fresh := n.tbl.bodies.all (fun c => c.hash != b.hash)
-      ({ n := some n' }, s!"ok h={b.height} hash={b.hash} writes=s{Bxh.Ledger.commitWrites n.st b.height}/c1 ##m fresh=" ++ (if fresh then "1" else "0"))
+      -- … and the two side conditions of `C11_recovered_chain_is_before_or_after` on the node the block is persisted on: the stored chain
+      -- meta is the cached one (`MetaOk`), all five blockfile tables are as long as the chain is high (`FiveEven`)
+      let metaok := decide (n.idx.metaDB.getD (0, "zero", 0) = n.cmeta)
+      let five := n.tbl.hashes.length == n.cmeta.1 && n.tbl.bodies.length == n.cmeta.1 && n.tbl.txs.length == n.cmeta.1 &&
+        n.tbl.rcpts.length == n.cmeta.1 && n.tbl.inter.length == n.cmeta.1
+      ({ n := some n' }, s!"ok h={b.height} hash={b.hash} writes=s{Bxh.Ledger.commitWrites n.st b.height}/c1 ##m fresh=" ++ (if fresh then "1" else "0")
+        ++ " metaok=" ++ (if metaok then "1" else "0") ++ " five=" ++ (if five then "1" else "0"))
     | none => (s, "PANIC append-out-of-order")
   | ["getblock", h] => (s, showBlk (getBlock n (h.toNat?.getD 0) false))
   | ["getblock", h, "full"] => (s, showBlk (getBlock n (h.toNat?.getD 0) true))
